@@ -12,6 +12,7 @@ through the real `apply` on small grids with integer / float32 / float64 (and mi
 floating point and equivariant ("for all series" includes whole-Kelvin integer model output).
 """
 import datetime
+from fractions import Fraction
 import random
 import warnings
 
@@ -401,6 +402,173 @@ def grid_oracle(rng, n_cases, res, hits, worst):
                          case, detail))
 
 
+# ------------------------------------------------------------------ tier B for the round-4 theorems
+def hist_tie(rng, n, res):
+    """(1) `ibicus.utils.ecdf(x, y, "kernel_density")` is the model's histogram cdf (`Model.Stats.ecdfHist1`, driver op
+    `ecdfhist`) of the bins `np.histogram(x, bins="auto")` — the `histE bins` of Props.C04.cdft_affine_hist / qdm_abs_affine_hist;
+    (2) the oracle law `BinsAffine` on numpy: the edges of the transformed sample are the transformed edges, the counts are
+    unchanged (except at the float-rounding discontinuity of the bin count, see AutoBinTieSpy)."""
+    from ibicus.utils import ecdf
+
+    lines, exp, mism, ties = [], [], [], 0
+    for k in range(n):
+        nprs = np.random.RandomState(rng.randint(0, 2**31 - 2))
+        m = int(nprs.randint(12, 260))
+        # continuous data (a float is an exact rational: sent exactly): a value exactly on an interior bin edge would be a discontinuity
+        x = 280 + 6 * nprs.standard_normal(m) + 4 * np.sin(np.arange(m) / 9.0)
+        if np.ptp(x) == 0:
+            continue
+        y = np.concatenate([x[: min(8, m)], nprs.uniform(x.min() - 3, x.max() + 3, 6)])
+        with warnings.catch_warnings():
+            warnings.simplefilter("ignore")
+            real = np.asarray(ecdf(x, y, method="kernel_density"), dtype=float)
+            counts, edges = np.histogram(x, bins="auto")
+        lines.append(f"ecdfhist {C.rlist(edges)} {C.ilist(counts)} {C.rlist(y)}")
+        exp.append((real, {"n": m, "bins": int(counts.size), "np_seed_case": k}))
+        res.count(("hist", m // 16, int(counts.size)), True)
+        # the oracle law on numpy itself
+        a, b = RESCALING_MAPS[k % len(RESCALING_MAPS)]
+        with AutoBinTieSpy() as spy:
+            c2, e2 = np.histogram(a * x + b, bins="auto")
+        if c2.size != counts.size or not np.array_equal(c2, counts) or np.max(np.abs(e2 - (a * edges + b))) > 1e-9 * max(1.0, np.max(np.abs(e2))):
+            if spy.tie:
+                ties += 1
+            else:
+                mism.append({"op": "BinsAffine law of np.histogram(bins='auto')", "n": m, "a": a, "b": b, "bins": [int(counts.size), int(c2.size)]})
+    if lines:
+        try:
+            out = C.run_driver("DrvStats", lines)
+        except Exception as ex:  # noqa: BLE001
+            return [{"op": "driver DrvStats", "why": f"{type(ex).__name__}: {str(ex)[:300]}"}], ties
+        for (real, case), got in zip(exp, out):
+            res.cov["traces_validated_against_impl"] += 1
+            try:
+                model = np.array([float(Fraction(t)) for t in got.split(",")]) if got != "-" else np.array([])
+            except Exception:  # noqa: BLE001
+                mism.append({"op": "ecdf kernel_density", "case": case, "model": got[:200]})
+                continue
+            if model.shape != real.shape or np.max(np.abs(model - real)) > 1e-9:
+                mism.append({"op": "ecdf(kernel_density) vs ecdfHist1 of np.histogram(x, 'auto')", "case": case,
+                             "impl": real[:5].tolist(), "model": model[:5].tolist()})
+    return mism, ties
+
+
+def _tok(v):
+    import re
+
+    if isinstance(v, (np.floating, np.integer)):
+        v = v.item()
+    if isinstance(v, (int, float)) and not isinstance(v, bool):
+        t = repr(float(v))  # attrs converters turn 0 into 0.0: numbers are compared by value
+    elif isinstance(v, (bool, str, type(None))):
+        t = repr(v)
+    elif isinstance(v, dict):
+        t = "dict_" + "_".join(f"{k2}.{_tok(x)}" for k2, x in sorted(v.items()))
+    elif isinstance(v, type):
+        t = "class_" + v.__name__
+    else:
+        t = "obj_" + type(v).__name__
+    return re.sub(r"[^A-Za-z0-9_.+\-']", "_", t) or "_"
+
+
+def _settings_tables():
+    """pristine copies (taken when this module is imported, before anything is constructed) of the settings tables the
+    classes hand to `_from_variable`: class name -> (general settings, {variable name: settings})"""
+    import copy
+
+    import ibicus.debias._cdft as mc
+    import ibicus.debias._isimip_options as mi
+    import ibicus.debias._quantile_mapping as mq
+
+    from ibicus.variables import str_to_variable_class
+
+    short = {}
+    for key, obj in str_to_variable_class.items():
+        short.setdefault(id(obj), key)  # the first key of a Variable object (`from_variable` takes the key)
+
+    def tab(*ds):
+        return {short[id(k2)]: copy.deepcopy(v) for d in ds for k2, v in d.items() if id(k2) in short}
+
+    return {
+        "ISIMIP": (copy.deepcopy(mi.isimip3_general_settings), tab(mi.isimip3_variable_settings)),
+        "QuantileMapping": ({}, tab(mq.experimental_default_settings, mq.default_settings)),
+        "CDFt": ({}, tab(mc.experimental_default_settings, mc.default_settings)),
+    }
+
+
+try:
+    PRISTINE_TABLES = _settings_tables()
+except Exception:  # noqa: BLE001  (reported by construct_tie)
+    PRISTINE_TABLES = None
+
+
+def construct_tie(rng, n, res):
+    """`Model.FromVariable.session fromVariableStep` (driver DrvFromVariable) vs the real `cls.from_variable` after a sequence
+    of other `from_variable` calls in this process: every constructor argument the model derives from the (pristine) tables
+    is the attribute the real instance has"""
+    import ibicus.debias as D
+
+    if PRISTINE_TABLES is None:
+        return [{"op": "construct", "why": "the settings tables could not be read"}]
+
+    def enc(d):
+        return ";".join(f"{k2}={_tok(v)}" for k2, v in d.items()) or "-"
+
+    lines, exp, mism = [], [], []
+    for k in range(n):
+        cls = list(PRISTINE_TABLES)[k % len(PRISTINE_TABLES)]
+        general, table = PRISTINE_TABLES[cls]
+        vs = sorted(table)
+        before = [vs[rng.randrange(len(vs))] for _ in range(rng.randint(0, 3))]
+        var = "tas" if k % 2 == 0 else vs[rng.randrange(len(vs))]
+        kw = [{}, {"running_window_mode": False}, {"running_window_length": 61, "running_window_step_length": 5}][k % 3]
+        with warnings.catch_warnings():
+            warnings.simplefilter("ignore")
+            try:
+                for bv in before:
+                    getattr(D, cls).from_variable(bv)
+                deb = getattr(D, cls).from_variable(var, **kw)
+            except Exception as ex:  # noqa: BLE001
+                mism.append({"op": "construct", "cls": cls, "before": before, "var": var, "why": f"raised {type(ex).__name__}: {str(ex)[:200]}"})
+                continue
+        ttab = "|".join(f"{v}:{enc(d) if d else ''}" for v, d in table.items()) or "-"
+        lines.append(f"session code {enc(general)} {ttab} {','.join(before) or '-'} {var} {enc(kw)}")
+        exp.append((deb, {"cls": cls, "before": before, "var": var, "kwargs": kw}))
+        res.count(("construct", cls, var, tuple(before)), True)
+    try:
+        out = C.run_driver("DrvFromVariable", lines) if lines else []
+    except Exception as ex:  # noqa: BLE001
+        return mism + [{"op": "driver DrvFromVariable", "why": f"{type(ex).__name__}: {str(ex)[:300]}"}]
+    for (deb, case), got in zip(exp, out):
+        res.cov["traces_validated_against_impl"] += 1
+        if not got.startswith("ok "):
+            mism.append({"op": "construct", "case": case, "model": got[:100]})
+            continue
+        model = dict(kv.split("=", 1) for kv in got[3:].split(";"))
+        model.pop("variable", None)
+        bad = {k2: {"model": v, "impl": _tok(getattr(deb, k2, "<missing>"))} for k2, v in model.items() if _tok(getattr(deb, k2, "<missing>")) != v}
+        if bad:
+            mism.append({"op": f"{case['cls']}.from_variable({case['var']!r}) after constructing {case['before']}", "case": case, "differs": bad})
+    return mism
+
+
+def linregress_assumption(rng, n):
+    """the recorded assumption about step 3's oracle: scipy.stats.linregress' p-value does not see the unit, the slope scales"""
+    import scipy.stats
+
+    bad = []
+    for k in range(n):
+        nprs = np.random.RandomState(rng.randint(0, 2**31 - 2))
+        m = int(nprs.randint(3, 40))
+        yrs = np.arange(1980, 1980 + m)
+        ym = 283 + 0.05 * nprs.uniform(-1, 3) * (yrs - 1980) + nprs.standard_normal(m)
+        a, b = MAPS[k % len(MAPS)]
+        r1, r2 = scipy.stats.linregress(yrs, ym), scipy.stats.linregress(yrs, a * ym + b)
+        if abs(r1.pvalue - r2.pvalue) > 1e-7 * max(r1.pvalue, 1e-300) + 1e-12 or abs(a * r1.slope - r2.slope) > 1e-9 * (1 + abs(r2.slope)):
+            bad.append({"m": m, "a": a, "b": b, "p": [r1.pvalue, r2.pvalue], "slope": [r1.slope, r2.slope]})
+    return bad
+
+
 # ------------------------------------------------------------------ the check
 def run(tier, res, force_search=False):
     rng = random.Random(C.seed() * 15485863 + 4)
@@ -414,6 +582,16 @@ def run(tier, res, force_search=False):
         "unit-free statistics; the slope itself is modelled exactly and proved to scale by a",
         "np.argsort is modelled as the stable sort (invariant under increasing maps); for tie-free data any argsort is",
         "calendar arithmetic (day of year / month / year) is done by Python; index sets depend on dates only (Lemmas.Lift)",
+        "ecdf_method='kernel_density': the bins np.histogram(x, bins='auto') are an oracle with the law BinsAffine (edges carry the unit, counts "
+        "unchanged, on non-constant samples) — checked on numpy on every run; Props.C04.cdft_affine_hist / qdm_abs_affine_hist are stated under it. "
+        "ISIMIP with kernel_density is not modelled (Model/Isimip.lean carries the step / linear ecdf only): decided by the oracle on the real code only",
+        "grid map: Model/Grid.lean (tied to Debiaser.apply by the C05 check) — Props.C04.apply_grid_affine; construction sequences: "
+        "Model/FromVariable.lean tied by driver DrvFromVariable (real from_variable after other constructions) and tier A (Gen.Config.fromVariableShape)",
+        "RUNTIME-ONLY clauses (oracle on the real code, no theorem): (i) input dtype conversion and the floating dtype of the result (numpy dtype "
+        "machinery; the model's values are rationals — the conversion step itself is C14's theorem); (ii) the value an unassigned step holds (0.0 of "
+        "zeros_like / uninitialised memory; the model has `none`, that no step is unassigned is Props.C07); (iii) float rounding at discontinuities "
+        "(numpy's auto bin count at an exact integer, np.interp / np.quantile knots on tied integer data, float32 step decisions) — the theorems are "
+        "about exact arithmetic, the oracle accepts/avoids these cases and counts them",
     ]
     res.assumptions = [
         "tas-like settings: no finite bound / threshold / censoring; QuantileMapping detrending additive or none; CDFt delta_shift additive or "
@@ -444,6 +622,25 @@ def run(tier, res, force_search=False):
             res.tie_broken.append(f"correspondence DrvIsimip: {len(mi)} mismatches, first: {str(mi[0])[:900]}")
     except Exception as ex:  # noqa: BLE001
         res.tie_broken.append(f"correspondence DrvIsimip failed to run: {type(ex).__name__}: {str(ex)[:300]}")
+    # round-4 ties: histogram ecdf (kernel_density) and its bin law; construction sequences; the linregress assumption
+    try:
+        mh, hties = hist_tie(rng, 12 if quick else 150, res)
+        res.extra["ties_accepted"] = res.extra.get("ties_accepted", 0) + hties
+        if mh:
+            mismatches += mh
+            res.tie_broken.append(f"correspondence ecdf(kernel_density) / BinsAffine: {len(mh)} mismatches, first: {str(mh[0])[:700]}")
+    except Exception as ex:  # noqa: BLE001
+        res.tie_broken.append(f"histogram-ecdf tie failed to run: {type(ex).__name__}: {str(ex)[:300]}")
+    try:
+        mc = construct_tie(rng, 18 if quick else 150, res)
+        if mc:
+            mismatches += mc
+            res.tie_broken.append(f"correspondence DrvFromVariable (from_variable after other constructions): {len(mc)} mismatches, first: {str(mc[0])[:700]}")
+    except Exception as ex:  # noqa: BLE001
+        res.tie_broken.append(f"construction tie failed to run: {type(ex).__name__}: {str(ex)[:300]}")
+    ml = linregress_assumption(rng, 20 if quick else 300)
+    if ml:
+        res.tie_broken.append(f"assumption 'linregress p-value is unit-free, slope scales' fails on scipy: {str(ml[0])[:300]}")
     res.extra["correspondence_mismatches"] = len(mismatches)
 
     # ---- the property's oracle on the real code
